@@ -126,7 +126,7 @@ def _roundtrip_unit(cls):
         pk = ctx.choose(2, "path-kind")
         import pathlib
 
-        target = "/d/target" if pk == 0 else pathlib.Path("/d/target")
+        target = "/d/target.txt" if pk == 0 else pathlib.Path("/d/target.txt")
         gfs = RoundTripFS(ctx, target)
         env = _rt_env(gfs)
         write = get(rel, f"{cls}.write").compile_into(env)
@@ -141,8 +141,17 @@ def _roundtrip_unit(cls):
         ctx.check(f"{cls}/write:creates-target", bool(f is not None))
         if f is None:
             return "no-file"
-        r = read(s)
-        wmode, wkw = gfs.write_kwargs.get(gfs.staging, (None, {}))
+        from .runphys import _catch
+
+        kind, r = _catch(ctx, lambda: read(s))
+        ctx.check(f"{cls}/read:succeeds-through-the-modelled-file-operations-after-a-write", bool(kind == "ret"),
+                  info=f"read raised {r!r}: the file is not accessed through open() on the path that was written")
+        if kind != "ret":
+            return "read-failed"
+        wpaths = list(gfs.write_kwargs)
+        ctx.check(f"{cls}/write:stages-into-a-file-private-to-this-target(<target>.STAGING)", bool(wpaths == [gfs.staging]),
+                  info=f"opened for writing: {wpaths}; two stores whose targets differ must never share a staging file")
+        wmode, wkw = gfs.write_kwargs[wpaths[0]] if wpaths else ("", {})
         reads = [e for e in gfs.open_log if "w" not in e[1]]
         ctx.check(f"{cls}/read:opens-the-same-path-once", bool(len(reads) == 1 and reads[0][0] == gfs.target))
         if cls == "TouchFileStore":
@@ -392,3 +401,11 @@ def _replay(ob):
 
 
 REPLAYS = [("stores.*", _replay)]
+
+
+@unit("stores.native-roundtrip[bounded]", props=["C12"], assumptions=["bounded stand-in: generated values (texts with every line terminator, JSON trees, pickles, bytes), 4 encodings, str and pathlib paths"],
+      min_obligations=1, kind="bounded")
+def stores_bounded(ctx):
+    """bounded: real stores in a temporary directory over generated values; validates the assumed stdlib contracts (T8)"""
+    r = _replay({})
+    ctx.check("bounded/read-after-write-returns-an-equal-value-of-the-same-type", bool(not r["reproduced"]), info=r["detail"][-2000:])
